@@ -41,6 +41,17 @@ def corpus():
     cs.append(mk([es, ns, up], [7], [d1, d2], [w1, w2], [0, 4, 0, 2], None, [1.0, 2.0], "spacing", "average", False, False, "corpus-weights"))
     cs.append(mk([es, ns, up], [7], [d1, d2], None, None, (2, 2), None, "spacing", "median", True, False, "corpus-centre"))
     cs.append(mk([es, ns], [7], [d1], [w1], [0, 4, 0, 2], (1, 3), None, "spacing", "average", True, True, "corpus-single-row"))
+    # a sparse survey on a fine block grid: far more blocks than points, occupied blocks with large indices
+    import random
+    rng = random.Random(9)
+    for shape in ((20, 20), (18, 40)):
+        k = 40
+        se = [(2 * rng.randint(0, 64 * 8 - 1) + 1) / 128.0 for _ in range(k)]
+        sn = [(2 * rng.randint(0, 64 * 8 - 1) + 1) / 128.0 for _ in range(k)]
+        se[-1], sn[-1] = se[0] + 1 / 64.0, sn[0]      # (two points share a block)
+        sd = [rng.randint(-64, 64) / 8.0 for _ in range(k)]
+        for red, centre in (("median", False), ("sum", True)):
+            cs.append(mk([se, sn], [k], [sd], None, [0, 8, 0, 8], shape, None, "spacing", red, centre, True, "corpus-sparse-on-fine-grid"))
     return cs
 
 
@@ -52,6 +63,8 @@ def generate(rng, tier):
         reg, es, ns = B.cloud(rng, maxpts)
         npts = len(es)
         region, shape, spacing, adjust = B.block_args(rng, reg)
+        if rng.random() < 0.06:      # sparse on a fine grid: more than 256 blocks, fewer points than blocks
+            shape, spacing = (rng.randint(17, 30), rng.randint(17, 30)), None
         coords = [es, ns] + ([B.values(rng, npts)] if rng.random() < 0.35 else [])
         ncomp = rng.choice([1, 1, 2, 3])
         data = [B.values(rng, npts) for _ in range(ncomp)]
